@@ -3001,7 +3001,12 @@ def concrete_values_from_iterable(
             return [pair.key for pair in value.kv_pairs]
     elif isinstance(value, KnownValue):
         if isinstance(value.val, (str, bytes, range)):
-            if len(value.val) < ITERATION_LIMIT:
+            try:
+                is_small = len(value.val) < ITERATION_LIMIT
+            except Exception:
+                # len(range(10**20)) raises OverflowError: it does not fit a C ssize_t
+                is_small = False
+            if is_small:
                 return [KnownValue(c) for c in value.val]
             is_nonempty = True
     elif value is NO_RETURN_VALUE:
